@@ -66,3 +66,20 @@ func debugTab(r *Run) {
 	fmt.Printf("cases=%d bad=%d\n", len(cases), bad)
 	os.Exit(0)
 }
+
+func init() { registry["GENFEAT"] = debugFeat }
+
+func debugFeat(r *Run) {
+	pool := r.Pool()
+	cases := featgenCases()
+	bad := 0
+	for _, c := range cases {
+		res, err := pool.Exec(progScript(featSource([]packCase{c})))
+		if err != nil || len(res.Term) >= 6 && res.Term[:6] == "syntax" {
+			bad++
+			fmt.Printf("BAD %v %s: %s\n", err, res.Term, trunc(c.Body, 200))
+		}
+	}
+	fmt.Printf("feat cases=%d bad=%d\n", len(cases), bad)
+	os.Exit(0)
+}
